@@ -89,6 +89,10 @@ def build_source(src, scratch, name='src.sgy'):
     with segyio.open(path, strict=False, ignore_geometry=True) as f:
         out['samples'] = np.asarray(f.samples, dtype=np.float64)
         out['fmt'] = int(f.bin[segyio.BinField.Format])
+    if geom == 'irregular':
+        # segyio's own geometry inference may accept an irregular file as a regular cube (known finding, decided by C08)
+        with segyio.open(path, strict=False) as f:
+            out['segyio_structured'] = not f.unstructured
     out['traces'] = traces
     out['headers'] = headers
     out['path'] = path
